@@ -272,6 +272,35 @@ func init() {
 					}
 				}
 			}
+			// the presence map really forgets a participant: in Map.Delete every copy into the replacement map is on the
+			// edge key != clientID, and the in-place path deletes the key
+			if fn := x.fn("pkg/document/presence/inner.(*Map).Delete"); fn != nil {
+				k := "func=" + prog.FnName(fn)
+				idP := vpIsParam(fn.Params[1])
+				rangeKey := VP{"copied key", func(v ssa.Value) bool {
+					ex, ok := v.(*ssa.Extract)
+					if !ok || ex.Index != 1 {
+						return false
+					}
+					_, isNext := ex.Tuple.(*ssa.Next)
+					return isNext
+				}}
+				copies, dels := 0, 0
+				for _, b := range fn.Blocks {
+					for _, ins := range b.Instrs {
+						switch t := ins.(type) {
+						case *ssa.MapUpdate:
+							copies++
+							x.guardedSite(fmt.Sprintf("%s copy#%d skips-the-deleted-key", k, copies), t, []Cmp{{L: rangeKey, R: idP, Want: NE}}, nil)
+						case ssa.CallInstruction:
+							if bi, ok := t.Common().Value.(*ssa.Builtin); ok && bi.Name() == "delete" && idP.match(t.Common().Args[1]) {
+								dels++
+							}
+						}
+					}
+				}
+				x.check(dels >= 1, k+" deletes-the-key", x.fpos(fn), "the key is deleted on the in-place path", "Map.Delete no longer deletes the participant's key")
+			}
 			// cluster detach clears the presence before pushing
 			p := x.pipe()
 			if fn := x.fn("server/rpc.(*clusterServer).DetachDocument"); fn != nil && p.ok {
